@@ -8,12 +8,51 @@ RULE = ('as C04 with emphasis on the multi producer with 2-3 writer threads, rin
 KF_D8 = "C14-D8-multi-publish-stranding"
 
 
+class MpSim:
+    """what the multi-producer cursor does (ready bits by residue, low watermark); only used to generate realistic consumer
+    positions - the judge is the extracted model / checker, not this"""
+    def __init__(self, size): self.size = size; self.bits = set(); self.lw = 0; self.cursor = 0
+
+    def publish(self, lo, hi):
+        for n in range(lo, hi + 1): self.bits.add(n % self.size)
+        good = self.lw
+        while good < hi and ((good + 1) % self.size) in self.bits: good += 1
+        if good > self.lw:
+            for n in range(self.lw, good + 1): self.bits.discard(n % self.size)
+            self.cursor = max(self.cursor, good); self.lw = good
+
+
 def gen_seqapi(run):
     rng = run.rng
     cases = []
     dist = {"seqapi_kinds": {"single": 0, "multi": 0}, "seqapi_ops": {"next": 0, "publish": 0, "gate": 0}, "seqapi_out_of_order_publishes": 0,
             "seqapi_max_outstanding": 0, "seqapi_slow_path_claims": 0}
     n = 3000 if run.thorough else 400
+    # multi-producer "lapping" histories: a small ring, groups of small claims published in a random order, the consumers
+    # following closely so that the ring wraps many times (a ready bit left behind by one lap is met again by the next)
+    for _ in range(n):
+        size = rng.choice([2, 4, 4, 8, 8, 16]); ng = rng.choice([1, 1, 2])
+        gating = [0] * ng; nxt = 1; ops = []; sim = MpSim(size)
+        for _lap in range(rng.randrange(3, 30 if run.thorough else 16)):
+            group = []
+            for _k in range(rng.randrange(1, 5)):
+                c = rng.choice([1, 1, 1, 2])
+                if max(0, (nxt - 1) - min(gating)) + c < size:
+                    ops.append((1, c, 0)); group.append((nxt, nxt + c - 1)); nxt += c; dist["seqapi_ops"]["next"] += 1
+            rng.shuffle(group)
+            keep = group.pop() if (group and rng.random() < 0.3) else None      # sometimes one claim stays outstanding
+            if sorted(group) != group: dist["seqapi_out_of_order_publishes"] += 1
+            for lo, hi in group:
+                ops.append((2, lo, hi)); sim.publish(lo, hi); dist["seqapi_ops"]["publish"] += 1
+            for i in range(ng):
+                if rng.random() < 0.8 and sim.cursor > gating[i]:
+                    gating[i] = sim.cursor; ops.append((3, i, sim.cursor)); dist["seqapi_ops"]["gate"] += 1
+            if keep:
+                # the held-back claim is published last, after the consumers moved
+                ops.append((2, keep[0], keep[1])); sim.publish(keep[0], keep[1]); dist["seqapi_ops"]["publish"] += 1
+        if ops:
+            dist["seqapi_kinds"]["multi"] += 1; dist["seqapi_lapping_histories"] = dist.get("seqapi_lapping_histories", 0) + 1
+            cases.append(Case("seqapi", [1, size, ng], ops, {"kind": "seqapi-lapping"}))
     for _ in range(n):
         kind = rng.randrange(2)
         size = rng.choice([2, 4, 8, 8, 16, 64, 128]) if kind else rng.choice([1, 2, 4, 8, 8, 16, 64, 128])
@@ -21,7 +60,7 @@ def gen_seqapi(run):
         gating = [0] * ng
         out = []                       # outstanding claims (lo, hi) in claim order
         nxt = 1 if kind else 0         # next sequence to be claimed
-        published = set(); prefix = 0  # contiguous published prefix (what the cursor should be)
+        sim = MpSim(size) if kind else None; sp_cursor = 0     # where the real cursor is (consumers never pass it)
         cached = 0
         ops = []
         L = rng.randrange(3, 80 if run.thorough else 40)
@@ -46,13 +85,12 @@ def gen_seqapi(run):
                 if i: dist["seqapi_out_of_order_publishes"] += 1
                 lo, hi = out.pop(i)
                 ops.append((2, lo, hi)); dist["seqapi_ops"]["publish"] += 1
-                published.update(range(lo, hi + 1))
-                while (prefix + 1) in published or (kind == 0 and prefix == 0 and 0 in published and False): prefix += 1
+                if kind: sim.publish(lo, hi)
+                else: sp_cursor = hi
                 continue
             if ng:
                 i = rng.randrange(ng)
-                top = max(gating[i], (out[0][0] - 1) if out else (nxt - 1))
-                top = max(top, 0)
+                top = max(gating[i], sim.cursor if kind else sp_cursor)
                 gating[i] = rng.randrange(gating[i], top + 1)
                 ops.append((3, i, gating[i])); dist["seqapi_ops"]["gate"] += 1
         if not ops: continue
@@ -69,8 +107,10 @@ def seqapi_phase(run):
 
     def oracle(case, impl, spec):
         # malformed histories (only the shrinker produces them: a publish of a range that is not outstanding, a claim that
-        # must block and is therefore not issued) are not judged
-        if spec == "checker:6" or impl.endswith("-777"):
+        # must block and is therefore not issued) and histories outside the discipline of the theorems (8: a consumer past
+        # the cursor, a single producer publishing out of order) are not judged
+        if spec in ("checker:6", "checker:8") or impl.endswith("-777"):
+            dist["seqapi_not_judged_outside_discipline"] = dist.get("seqapi_not_judged_outside_discipline", 0) + 1
             return None
         return None if spec == "checker:0" else f"the C14 property checker (SeqApi.check) rejected the observed history: verdict {spec} (1 claim not contiguous, 2 wrong length, 3 cursor decreased, 4 cursor past an unpublished sequence, 5 all published but cursor below the highest claim, 6/7 malformed)"
 
@@ -102,5 +142,5 @@ def replay(path):
     if "harness_line" in d and d["harness_line"].startswith("seqapi"):
         run = Run("C14"); ensure_driver(); b, log = cargo_build("ds")
         return generic_replay(Differential(run, {"release": b}, lambda c: "seqapi_model_entry", None, check_entry=lambda c: "seqapi_check_entry",
-                                           oracle=lambda case, impl, spec: None if spec in ("checker:0", "checker:6") or impl.endswith("-777") else spec), path)
+                                           oracle=lambda case, impl, spec: None if spec in ("checker:0", "checker:6", "checker:8") or impl.endswith("-777") else spec), path)
     return _replay_ring(path)
